@@ -136,7 +136,14 @@ namespace bxdecay0 {
       throw std::range_error("bxdecay0::event_reader::set_configuration: Invalid maximum number of events!");
     }
     _config_ = config_;
-    _at_configure_();
+    try {
+      _at_configure_();
+    } catch (...) {
+      // Leave the reader as it was before the call (no open file, no counter, no configuration):
+      _at_unconfigure_();
+      _config_ = config_type();
+      throw;
+    }
     _configured_ = true;
     if (is_trace()) std::cerr << "[trace] bxdecay0::event_reader::set_configuration: Exiting...\n";
     return;
